@@ -794,6 +794,13 @@ func genC14(out *caseWriter, seed uint64, n int, args []string) error {
 			c.Tree = []c14Entry{{Kind: 'F', Path: "journal.knut", Raw: c14SmallJournal}}
 			c.Flags = rawFlags("--to", "2021-12-31", "-v", "CHF", "--color=false", "--digits", pick(r, []string{"2000000000", "2147483647", "500000000"}))
 			hangProne = true
+			if i%8 == 5 {
+				// one directive that expands into 3.65 million transactions
+				c.Cmd = pick(r, []string{"check", "print", "balance"})
+				c.Tree = []c14Entry{{Kind: 'F', Path: "journal.knut", Raw: "2020-01-01 open Assets:Bank\n2020-01-01 open Expenses:Rent\n2020-01-01 open Assets:Accrual\n\n" +
+					"@accrue daily 0001-01-02 9999-12-31 Assets:Accrual\n2020-01-06 \"Rent\"\nAssets:Bank Expenses:Rent 500 CHF\n"}}
+				c.Flags = rawFlags(c14Benign(r, c.Cmd, "journal.knut")...)
+			}
 		}
 		it := caseIn{id, "C14.run", c.Enc()}
 		if hangProne {
